@@ -69,39 +69,40 @@ type Run struct {
 	L    *Ledger
 	Ent  *EntropyStream
 
-	Viol          []Violation
-	Sanity        []string // workload could not make progress where every known reason for refusal is absent
-	Log           []string
-	Idx           int // current step index
-	Stats         map[string]int
-	Probes        map[string]int // rare-branch probes
-	Tags          []string       // properties whose "leaves everything else untouched" clause covers the current step
-	Start         time.Time
-	Secrets       map[string]string // cleartext secret -> label (C20 storage monitor)
-	Canaries      map[string]bool
-	storageSeen   map[string]string // every value handed to storage so far -> where (retrospective secret check)
-	verifierN     int
-	assertN       int
-	lastAuthz     *authzInfo
-	parState      string
-	sigSeen       map[string]int
-	tablesBefore  string
-	jtis          map[string]*jtiRec
-	lastAssertion map[string]string
-	lastJTI       map[string]string
-	assertExp     time.Time
-	entFiredSeen  int
-	keyParts      map[string]string
-	shortSecret   bool
-	shortRotated  bool
-	writeMark     int
-	branching     []int    // branching factor at each scheduling decision of the concurrent steps
-	schedules     []string // storage-call schedules of the concurrent steps
-	Fault         *faultState
-	StateSeen     map[string]bool
-	Shape         []string // abstract history shape
-	NoProbe       bool
-	T             *testing.T
+	Viol           []Violation
+	Sanity         []string // workload could not make progress where every known reason for refusal is absent
+	Log            []string
+	Idx            int // current step index
+	Stats          map[string]int
+	Probes         map[string]int // rare-branch probes
+	Tags           []string       // properties whose "leaves everything else untouched" clause covers the current step
+	Start          time.Time
+	Secrets        map[string]string // cleartext secret -> label (C20 storage monitor)
+	Canaries       map[string]bool
+	storageSeen    map[string]string // every value handed to storage so far -> where (retrospective secret check)
+	verifierN      int
+	assertN        int
+	lastAuthz      *authzInfo
+	parState       string
+	sigSeen        map[string]int
+	tablesBefore   string
+	jtis           map[string]*jtiRec
+	lastAssertion  map[string]string
+	lastJTI        map[string]string
+	assertExp      time.Time
+	entFiredSeen   int
+	keyParts       map[string]string
+	shortSecret    bool
+	shortRotated   bool
+	noUsableSecret bool // no current or rotated secret of at least 32 bytes is configured: no opaque credential may be accepted
+	writeMark      int
+	branching      []int    // branching factor at each scheduling decision of the concurrent steps
+	schedules      []string // storage-call schedules of the concurrent steps
+	Fault          *faultState
+	StateSeen      map[string]bool
+	Shape          []string // abstract history shape
+	NoProbe        bool
+	T              *testing.T
 }
 
 func (r *Run) now() time.Time { return time.Now() }
